@@ -104,6 +104,12 @@ func (c *Ctx) SendSites(rel string) []SendSite {
 	lift = func(s SendSite, d int) {
 		ch := strip(s.Chan)
 		p, isParam := ch.V.(*ssa.Parameter)
+		if v := strip(s.Val); !(isParam && p.Parent() == s.Fn) && v != nil && v.Op == "param" && s.Fn.Parent() != nil {
+			// a local closure that sends its parameter: the send is looked at where the closure is called
+			if vp, ok := v.V.(*ssa.Parameter); ok && vp.Parent() == s.Fn {
+				ch, p, isParam = v, vp, true
+			}
+		}
 		if d < 2 && ch.Op == "param" && isParam && p.Parent() == s.Fn {
 			if sites, known := c.staticCallSites(s.Fn); known && len(sites) > 0 {
 				for _, site := range sites {
